@@ -534,6 +534,9 @@ func (g *e1gen) rpc(idx int) *RPCSpec {
 		if g.chance(0.1) {
 			r.HRet = RetNil // nil response
 		}
+		if g.chance(0.5) {
+			r.CEnd = EndCloseCancel // the ubiquitous `defer cancel()` idiom
+		}
 	default:
 		if g.chance(m.Duplex) {
 			g.duplex(r)
@@ -544,7 +547,7 @@ func (g *e1gen) rpc(idx int) *RPCSpec {
 			g.misbehave(r)
 		}
 		r.HRet = RetNil
-		if r.CEnd == EndClose && g.chance(0.3) {
+		if r.CEnd == EndClose && g.chance(0.5) {
 			r.CEnd = EndCloseCancel
 		}
 	}
